@@ -361,7 +361,8 @@ class Schema(dict, metaclass=LogicalMeta):
             if unprovided(addition):
                 # ignore addition
                 return
-            return super().__setitem__(alias, value)
+            # store the converted value (addition=<type>), like the constructor does
+            return super().__setitem__(alias, addition)
 
         return self.__field_setter__(value, field=field)
 
